@@ -95,6 +95,9 @@ def run(prop, tier, seed, a):
     extra = {}
     if hasattr(mod, 'native_checks'):
         extra = mod.native_checks(cx, results) or {}
+    elif getattr(mod, 'NATIVE_BOUNDED', None):
+        extra = native_bounded(cx, prop, mod.NATIVE_BOUNDED[0 if tier == 'quick' else 1])
+    if extra:
         for v in extra.get('violations', []):
             refuted.append(v)
         for v in extra.get('errors', []):
@@ -155,6 +158,23 @@ def run(prop, tier, seed, a):
     ev = dict(property_id=prop, tier=tier, seed=seed, level=level, coverage=cov,
               assumptions=cx.assumptions + GLOBAL_ASSUMPTIONS, wall_s=0.0, violations=len(refuted))
     return code, ev
+
+
+def native_bounded(cx, prop, n):
+    """bounded stand-in next to the proof (labelled, never counted as proved): the property's native checker on a seeded corpus of
+    concrete inputs of the real code - reaches floating-point effects the real-number model cannot see"""
+    from .nativeio import native
+    cases = native(dict(cmd='corpus', prop=prop, seed=getattr(cx, 'seed', 0), n=n))
+    out = native(dict(cmd='check', prop=prop, cases=cases), timeout=3000)
+    viol = []; errs = []
+    for c, fails in zip(cases, out):
+        if any(str(f).startswith('CHECKER-EXCEPTION') for f in fails): errs.append(dict(name='native-corpus', detail=str(fails[0])[:600])); continue
+        if fails and not viol:
+            viol.append(dict(name="native-corpus", prop=prop, status='refuted', native_case=c, native_failures=fails, detail="bounded native corpus: the real code violates the property on this input",
+                             meta=dict(function='native corpus', statement="property statements evaluated numerically on the real code")))
+    cx.bounded.append(dict(function='native corpus of %s' % prop, bound="%d seeded concrete inputs (built-in and random components/mixtures, end points)" % len(cases),
+                           reason="floating-point behaviour (rounding at end points etc.) is outside the real-number model: bounded stand-in, not counted as proved"))
+    return dict(violations=viol, errors=errs[:1], coverage=dict(native_corpus_cases=len(cases)))
 
 
 def match_known(r, kf, byname):
